@@ -3258,7 +3258,9 @@ class UTPM(Ring, RawAlgorithmsMixIn):
         D,P = a.data.shape[:2]
 
         if out is None:
-            r = cls(numpy.zeros(a.data.shape, dtype=complex))
+            # n may differ from the length of the transformed axis
+            shp = numpy.fft.fft(a.data[0,0], n=n, axis=axis).shape
+            r = cls(numpy.zeros((D,P) + shp, dtype=complex))
 
         else:
             r, = out
@@ -3293,7 +3295,9 @@ class UTPM(Ring, RawAlgorithmsMixIn):
         D,P = a.data.shape[:2]
 
         if out is None:
-            r = cls(numpy.zeros(a.data.shape, dtype=complex))
+            # n may differ from the length of the transformed axis
+            shp = numpy.fft.ifft(a.data[0,0], n=n, axis=axis).shape
+            r = cls(numpy.zeros((D,P) + shp, dtype=complex))
 
         else:
             r, = out
